@@ -116,6 +116,21 @@ claim("C12",
       "for values that do not fit their field. Assumes each value fits its field.",
       "format-layout analysis of the templates vs slice census + term algebra on scale factors + ast pattern rules", "§3 C12")
 
+claim("C13",
+      "Clause-level, table agreement between the 8 writers, 8 readers and the covariance codec, all extracted from the "
+      "source on each run: (B1) both encodings write the same keys up to a reasoned table of containers and "
+      "informational keys, with the same CENTER_NAME rule, exhaustive type/format dispatch and header detection; "
+      "(B2) every key a reader requires is written by the matching writer and every state-bearing key written is read; "
+      "(B3) units written = default units assumed, all in units_dict, conversions inverse; (B4) covariance key table "
+      "(36 entries + row structure of the OEM KVN block); (B5) QSW<->RSW alias maps inverse at every site; (B6) Cov "
+      "receives a Frame or a local tag; (B7) repeated XML elements normalised before iteration; (B8) writers read only "
+      "what every producer provides; (B9) measurement names written = accepted; (N1) optional centre body tested "
+      "before dereference.",
+      "Not decided: precision of written numbers (1 mm / 1 mm/s is a property of the format specs, not checked), XML "
+      "schema validity, epoch round trip to the microsecond (dates under one TIME_SYSTEM are decided under C04).",
+      "keyword/tag extraction from templates and ET.SubElement calls (finite string sets over literal loops) + "
+      "set comparison against reader key census + ast pattern rules", "§3 C13")
+
 NOT_YET = "check not built yet in this revision; rules designed in DESIGN.md §3 — claimed once its checker is committed"
 
 ALL = [f"C{i:02d}" for i in range(1, 21)]
